@@ -180,8 +180,12 @@ def _GridWorld(case, rng):
               "zip": zip(list(fr), list(fr.values())) if fr else fr,
               "generator": ((k, v) for k, v in fr.items()) if fr else fr}[fr_rep]
     params["feature_rewards_as"] = fr_rep
-    gw = case.call("GridWorld", GridWorld, tile_array=rows if rng.random() < 0.5 else "\n".join(rows),
-                   feature_rewards=fr_arg, absorbing_features=absf, step_cost=step, success_prob=sp_, discount_rate=gamma)
+    from mon import defaults as Dflt
+    gkw, _om = Dflt.rely_on_defaults(case, rng, "GridWorld", dict(feature_rewards=fr_arg, absorbing_features=absf, step_cost=step,
+                                                                 success_prob=sp_, discount_rate=gamma))
+    gw = case.call("GridWorld", GridWorld, tile_array=rows if rng.random() < 0.5 else "\n".join(rows), **gkw)
+    if gw is not case.FAIL:
+        Dflt.in_force(case, "GridWorld", gw, passed=gkw)
     feat = {}
     for r in range(h):
         for c in range(w):
@@ -285,7 +289,11 @@ def _WindyGridWorld(case, rng):
     kw = {} if fr == "default" else {"feature_rewards": fr}
     gamma = rng.choice([0.99, 0.9, 1.0])
     params = dict(layout=rows, wind_probability=wp, feature_rewards=fr, discount_rate=gamma)
-    m = case.call("WindyGridWorld", WindyGridWorld, grid="\n".join(rows), wind_probability=wp, discount_rate=gamma, **kw)
+    from mon import defaults as Dflt
+    wkw, _om = Dflt.rely_on_defaults(case, rng, "WindyGridWorld", dict(wind_probability=wp, discount_rate=gamma, **kw))
+    m = case.call("WindyGridWorld", WindyGridWorld, grid="\n".join(rows), **wkw)
+    if m is not case.FAIL:
+        Dflt.in_force(case, "WindyGridWorld", m, passed=wkw)
     return m, params, {}
 
 
